@@ -284,7 +284,10 @@ def symbol_needs_import(fullname, namespaces):
                 continue
             # If we're doing static analysis where we also care about which
             # imports are unused, then mark the used ones now.
-            if isinstance(var, _UseChecker):
+            # Look at the type only: ``var`` can be any user object, and
+            # ``isinstance`` falls back to reading ``var.__class__`` (which
+            # runs a ``__class__`` property or a custom ``__getattribute__``).
+            if issubclass(type(var), _UseChecker):
                 var.used = True
             # Suppose the user accessed fullname="foo.bar.baz.quux" and
             # suppose we see "foo.bar" was imported (or otherwise assigned) in
